@@ -310,9 +310,10 @@ def c_expand_exports(P):
             P_.prove("exports_are_read_after_the_referenced_module_was_expanded", (not expands) or src is new_exports)
             P_.prove("added_names_come_from_the_current_exports_of_the_referenced_module", _reads_only(P_, added, exp_before, src), src=("after" if src is new_exports else "before"))
     P.opaque_hooks[LD + "expand_exports"] = rec
-    P.loop_specs[(q, 1)] = dict(mode="inv", name="exports", hints={"expanded": hint_expanded, "export": lambda P_, nm: None, "next_module": lambda P_, nm: None,
-                                                                      "module_path": lambda P_, nm: P_.fresh_str(nm)},
-                                post_body=post_body, may_write=("exports",))
+    # keyed by what the loop iterates over (the loop over the module's exports), not by its position in the function
+    P.loop_specs[("*", "iter:module.exports")] = dict(mode="inv", name="exports",
+                                                      hints={"expanded": hint_expanded, "export": lambda P_, nm: None, "module_path": lambda P_, nm: P_.fresh_str(nm)},
+                                                      post_body=post_body, may_write=("exports",))
     seen = SymSet(items=[], parts=[])
     P.ghost["seen_set"] = seen
     # `next_module.path not in seen`: either way
